@@ -125,6 +125,8 @@ pub enum Release {
 pub enum NonAcqOp {
     /// `format!("{:?}", target)`
     Debug,
+    /// `write!(sink, "{:?}", target)` into a sink that fails after n bytes
+    DebugLimited(u16),
     IsPoisoned,
     ClearPoison,
     /// child()/iter()/as_ref() accessors
